@@ -75,3 +75,15 @@ Proof. destruct a, b; unfold stage_eqb; simpl; split; intros; try reflexivity; t
 
 Lemma require_stage_ok e s g u : require_stage e s g = Ok u -> get_launch_stage e s = g.
 Proof. unfold require_stage. intros H. apply require_ok' in H. now apply stage_eqb_eq. Qed.
+
+(** projections of updated worlds *)
+Lemma st_set_st w s : st (set_st w s) = s. Proof. reflexivity. Qed.
+Lemma bal_set_st w s : bal (set_st w s) = bal w. Proof. reflexivity. Qed.
+Lemma evs_set_st w s : evs (set_st w s) = evs w. Proof. reflexivity. Qed.
+Lemma rlog_set_st w s : rlog (set_st w s) = rlog w. Proof. reflexivity. Qed.
+Lemma locks_set_st w s : locks (set_st w s) = locks w. Proof. reflexivity. Qed.
+Lemma seeds_set_st w s : seeds (set_st w s) = seeds w. Proof. reflexivity. Qed.
+Lemma set_st_set_st w s s' : set_st (set_st w s) s' = set_st w s'. Proof. reflexivity. Qed.
+Lemma st_emit w n l : st (emit w n l) = st w. Proof. reflexivity. Qed.
+Lemma bal_emit w n l : bal (emit w n l) = bal w. Proof. reflexivity. Qed.
+#[export] Hint Rewrite st_set_st bal_set_st evs_set_st rlog_set_st locks_set_st seeds_set_st set_st_set_st st_emit bal_emit : world.
